@@ -1159,7 +1159,7 @@ Definition natives3 : list (string * (jv -> jv -> jv -> jv -> nres)) :=
   [ ("_slice", fun _ v e s => fn_slice v e s) ].
 
 (* natives gojq has but the model declines (by arity); anything else is "function not defined" *)
-Definition declined : list (string * nat) :=
+Definition declined : list (string * Z) :=
   [ ("fromjson", 0); ("_tourid", 0); ("_tobase64d", 0); ("significand", 0); ("cbrt", 0); ("exp", 0); ("exp10", 0);
     ("exp2", 0); ("expm1", 0); ("frexp", 0); ("modf", 0); ("log", 0); ("log10", 0); ("log1p", 0); ("log2", 0);
     ("logb", 0); ("gamma", 0); ("tgamma", 0); ("lgamma", 0); ("erf", 0); ("erfc", 0); ("j0", 0); ("j1", 0); ("y0", 0);
@@ -1181,7 +1181,7 @@ Fixpoint assoc_str {A} (l : list (string * A)) (name : bytes) : option A :=
   end.
 
 Definition is_declined (name : bytes) (arity : nat) : bool :=
-  existsb (fun p => list_N_eqb name (codes (fst p)) && Nat.eqb (snd p) arity) declined.
+  existsb (fun p => list_N_eqb name (codes (fst p)) && (snd p =? Z.of_nat arity)) declined.
 
 (* None: gojq has no such native *)
 Definition call_native (name : bytes) (v : jv) (args : list jv) : option nres :=
